@@ -402,6 +402,8 @@ def value_for_count(body, rest, count):
                     return Node("sym", "None", line=n.line)
             elif h == "do" and a:
                 n = a[-1]
+            elif h == "reduce" and len(a) == 3 and a[1].is_sym(rest) and count == 0:
+                n = a[2]            # reduce over no elements gives the initial value
             else:
                 return n
     except _Unknown:
